@@ -24,10 +24,11 @@ COMPONENTS = {"real": ["setigen.voltage.polyphase_filterbank (PolyphaseFilterban
 ASSUMPTIONS = ["scipy.signal.firwin is the documented window design (trusted)",
                "float comparison at 1e-10 of the largest attainable output magnitude"]
 PROBES = ["chunk_single_window", "reset_midstream", "nocache_between_feeds", "interleaved_objects",
-          "complex_input", "nonpow2_branches"]
+          "complex_input", "nonpow2_branches", "dtype_switch_after_reset"]
 
 WINDOWS = ["hamming", "hann", "boxcar", "blackman"]
 KINDS = ["gauss", "ints", "impulse", "ramp", "complex"]
+ALL_KINDS = KINDS + ["int8"]
 
 
 def make_input(kind, seed, n):
@@ -45,6 +46,8 @@ def make_input(kind, seed, n):
         return (np.arange(n) % 251) * 0.5 - 30.0
     if kind == "complex":
         return rng.standard_normal(n) + 1j * rng.standard_normal(n)
+    if kind == "int8":
+        return rng.integers(-128, 128, size=n).astype(np.int8)       # integer dtype, as read from a RAW file
     raise ValueError(kind)
 
 
@@ -54,7 +57,7 @@ def generate(rng, tier):
     for _ in range(npfb):
         T = rng.choice([1, 2, 2, 3, 4, 4, 5, 8])
         B = rng.choice([4, 8, 8, 16, 16, 32, 64, 6, 10, 12, 24] + ([128, 256] if tier == "thorough" else []))
-        kinds = KINDS if rng.random() < 0.35 else KINDS[:4]
+        kinds = ALL_KINDS if rng.random() < 0.35 else KINDS[:4]
         pfbs.append({"T": T, "B": B, "window": rng.choice(WINDOWS), "kind": rng.choice(kinds),
                      "seed": rng.randrange(1 << 30)})
     ops = []
@@ -68,8 +71,11 @@ def generate(rng, tier):
         elif r < 0.74:
             ops.append({"op": "nocache", "p": p, "k": rng.choice([1, 2, 3, 4]), "seed": rng.randrange(1 << 30),
                         "kind": rng.choice(KINDS[:4])})
-        elif r < 0.82:
+        elif r < 0.79:
             ops.append({"op": "reset", "p": p})
+        elif r < 0.82:
+            # the same object starts a new stream of another kind (other dtype) after a reset
+            ops.append({"op": "switch", "p": p, "kind": rng.choice(ALL_KINDS), "seed": rng.randrange(1 << 30)})
         elif r < 0.88:
             ops.append({"op": "gpv", "p": p, "k": rng.choice([2, 3, 4]), "seed": rng.randrange(1 << 30)})
         elif r < 0.94:
@@ -213,6 +219,16 @@ def execute(sc, ctx):
             same = (cache_before is None and o.cache is None) or (
                 cache_before is not None and o.cache is not None and np.array_equal(cache_before, o.cache))
             ctx.check(same, "cache", "C08/nocache_call_disturbs_stream", "cache changed by cache=False call")
+        elif op["op"] == "switch":
+            o._reset_cache()
+            total = sum(q.get("k", 0) for q in sc["ops"] if q["op"] == "feed") + 1
+            S["x"] = make_input(op["kind"], op["seed"], total * T * B)
+            S["pos"] = 0
+            S["epoch"] = 0
+            if S["kind"] != op["kind"]:
+                ctx.hit("dtype_switch_after_reset")
+            S["kind"] = op["kind"]
+            ctx.event("switch", p)
         elif op["op"] == "reset":
             o._reset_cache()
             S["epoch"] = S["pos"]
